@@ -365,6 +365,8 @@ class PathCtx:
                 elif kind == "float":
                     v = m.eval(term, model_completion=True)
                     out[name] = fp_to_py(v)
+                elif kind == "pred":
+                    out[name] = {"__pred__": [z3.is_true(m.eval(term(j), model_completion=True)) for j in range(64)]}
                 elif kind == "bytes":
                     ln = term.length
                     if not isinstance(ln, int):
@@ -722,6 +724,14 @@ def make_api_module(I, registry):
         if isinstance(n, int):
             return [I_.call(f, [j], {}) for j in range(n)]
         return I_.bm.SymList(n, lambda j: I_.call(f, [j], {}), kw.get("key"))
+
+    @nf("fresh_predicate")
+    def _fresh_pred(I_, args, kw):
+        """an arbitrary (uninterpreted) predicate over the integers: p(j) -> bool"""
+        name = I_.ctx._name(args[0])
+        fn = z3.Function(name, z3.IntSort(), z3.BoolSort())
+        I_.ctx.fresh_vars[name] = ("pred", fn)
+        return NativeFn("pred:" + name, lambda I2, a, k: mk_bool(fn(zi(a[0]))))
 
     @nf("is_symbolic")
     def _is_sym(I_, args, kw):
